@@ -259,14 +259,17 @@ def run_case(case):
         if not trivial:
             keys.append(f"{key0}:hb:{vw:.9f}")
         # -------- efficiency factor
-        if rtol <= 1e-8 and rng.random() < 0.7:
+        if rtol <= 1e-8:
             try:
                 kg, kt = float(hyd.efficiencyFactor(vw)), float(tmpl.efficiencyFactor(vw))
             except Exception as exc:
                 continue
             mon["kappa_pairs"] += 1
             # both sides apply Simpson's rule to sparse ODE nodes (C03: 1e-2 / 5e-2 each)
-            tk = (1e-1 if cls != "deflagration" else 2e-2) * max(abs(kt), 1e-12)
+            # each side <= 1.6e-2 (rarefaction) / 1.8e-3 (shock only) from the exact integral
+            # (C03 calibration over 5 seeds); the two errors are of the same sign and size
+            # in practice (observed difference <= 6e-3), so 4e-2 / 1e-2 keeps a margin > 5
+            tk = (4e-2 if cls != "deflagration" else 1e-2) * max(abs(kt), 1e-12)
             row["kappa_rel"] = (kg - kt) / max(abs(kt), 1e-300)
             if not np.isfinite(kg) or not np.isfinite(kt) or abs(kg - kt) > tk:
                 fail("efficiency-factor-disagrees",
